@@ -503,8 +503,13 @@ RULE = ('seeded random sequences of public calls (catalogue below, ~200 entries:
         'exclusion tuples; surface functions on int32/float64/float32; perlin/generate_terrain with varying seeds; bump) '
         'executed in ONE process, every call issued twice in a row; each result (sha256 of dtype, shape and raw bytes) '
         'compared with the same call executed alone in a FRESH subprocess, and the whole sequence re-run under '
-        'NUMBA_NUM_THREADS = Dask threads in {1, 2, 4, 16} with the threaded and the synchronous Dask scheduler; thorough tier: every catalogue entry at least once and both orders (a, b, a) of every pair of variants of the same function (at most 12 seeded pairs per function). Sequences alternate argument TYPES for the type-specialised code '
-        '(int -> float -> int). A case is one call position in one sequence under one thread setting.')
+        'NUMBA_NUM_THREADS = Dask threads in {1, 2, 4, 16} with the threaded and the synchronous Dask scheduler; thorough tier: every catalogue entry at least once and both orders (a, b, a) of every pair of variants of the same function (at most 6 seeded pairs per function). Sequences alternate argument TYPES for the type-specialised code '
+        '(int -> float -> int). Theme entries: memory layouts (F, transposed, strided, reversed, read-only) of each array argument in turn, '
+        'Dask chunkings (irregular, 1-wide, single, rows, per-argument different splits), several lazy results computed by ONE '
+        'dask.compute after later calls, rasters derived (slice, copy, astype, assign_coords, reversed) from a shared, already '
+        'processed raster, list parameters unsorted / duplicated / as ndarrays, big kernels and unit strings, values beyond '
+        '2**24 / 2**31 / 2**53 and 2**+-100 scales, other coordinate systems, degenerate shapes and fills. '
+        'A case is one call position in one sequence under one thread setting.')
 TRUSTED = [
     'the AST inventory translator of harness/props/c11.py (module-level mutable objects, mutable defaults, RNG use, jitted '
     'closures, decorators) and the C10 effect IR it reuses for writes through aliases of a mutable default (unverified; '
@@ -1356,13 +1361,13 @@ def run(ctx):
         # thread counts {1, 2, 4, 16}; Dask schedulers: synchronous (also with 4 Numba threads) and threaded
         threads = {0: [1, 4, 16], 1: [2, (4, 'synchronous')]}
     else:
-        seqs = [gen_sequence(rng, cat, rng.randint(40, 60)) for _ in range(4)]
-        threads = {i: [1, 2, 4, 16, (4, 'synchronous')] for i in range(4)}
+        seqs = [gen_sequence(rng, cat, rng.randint(40, 60)) for _ in range(3)]
+        threads = {i: [1, 2, 4, 16, (4, 'synchronous')] for i in range(3)}
         # every catalogue entry at least once (each function with each backend it supports, every edge value)
         allc = [d['id'] for d in cat if not d['kw'].get('big')]
         rng.shuffle(allc)
         seqs.append(allc)
-        threads[len(seqs) - 1] = [1, 4, 16]
+        threads[len(seqs) - 1] = [1, 16]
         # both orders of every pair of calls to the same function with different parameters: a, b, a
         fam = {}
         for d in cat:
@@ -1371,8 +1376,8 @@ def run(ctx):
         pairs = []
         for fn_, ids_ in sorted(fam.items()):
             prs = [(ids_[x], ids_[y]) for x in range(len(ids_)) for y in range(x + 1, len(ids_))]
-            if len(prs) > 12:                 # the proximity family re-JITs per call: a seeded subset of its pairs
-                prs = rng.sample(prs, 12)
+            if len(prs) > 6:                  # a seeded subset of the pairs (the proximity family re-JITs per call)
+                prs = rng.sample(prs, 6)
             for (x, y) in prs:
                 pairs += [x, y, x]
         half = len(pairs) // 2 // 3 * 3
@@ -1390,11 +1395,11 @@ def run(ctx):
         ids('focal.apply', kernel='circle:1,1,3') + ids('convolution.annulus_kernel', outer_radius=3, inner_radius=2) + \
         ids('convolution.convolution_2d', kernel='annulus:1,1,3,1')
     sh = rng.choice(['A', 'B'])
-    before = ids('convolution.calc_cellsize', share=sh) + ids('slope.slope', share=sh)
-    shared = before + ids('focal.hotspots', share=sh) + before + ids('curvature.curvature', share=sh)
-    gen = ids('terrain.generate_terrain', template='zeros', dtype='float64', backend='numpy') + \
-        ids('terrain.generate_terrain', template='ones', dtype='float64', backend='numpy') + \
-        ids('perlin.perlin', template='zeros') + ids('perlin.perlin', template='ramp')
+    before = ids('convolution.calc_cellsize', share=sh, derive=None) + ids('slope.slope', share=sh, derive=None)
+    shared = before + ids('focal.hotspots', share=sh, derive=None) + before + ids('curvature.curvature', share=sh, derive=None)
+    gen = ids('terrain.generate_terrain', template='zeros', dtype='float64', backend='numpy', seed_arg=7) + \
+        ids('terrain.generate_terrain', template='ones', dtype='float64', backend='numpy', seed_arg=7) + \
+        ids('perlin.perlin', template='zeros', seed_arg=7) + ids('perlin.perlin', template='ramp', seed_arg=7)
     tc = ids('multispectral.true_color', const_band=None, shape=[40, 48], backend='numpy')
     # a constant FIRST or LAST band (and the Dask kernel) after other float32 results of the same size, and repeated:
     # uninitialised memory shows (a constant middle band happens to pick up the previous band's buffer deterministically)
@@ -1413,10 +1418,10 @@ def run(ctx):
         pool = [d['id'] for d in cat if pred(d) and not d['fn'].startswith('proximity.')]
         return rng.sample(pool, min(n, len(pool)))
     ro = lambda d, key: any(key in o for o in (d['kw'].get('ropts') or []))       # noqa: E731
-    themeblock = pick(lambda d: ro(d, 'layout'), 2) + pick(lambda d: ro(d, 'chunks'), 3) + \
-        pick(lambda d: d['kw'].get('derive') and d['kw'].get('share') == sh, 3) + \
+    themeblock = pick(lambda d: ro(d, 'layout'), 1) + pick(lambda d: ro(d, 'chunks'), 2) + \
+        pick(lambda d: d['kw'].get('derive') and d['kw'].get('share') == sh, 2) + \
         pick(lambda d: d['shape'] in ([1, 1], [1, 5], [5, 1], [2, 2]) or ro(d, 'fill'), 1) + \
-        pick(lambda d: d['kw'].get('as_array') or d['kw'].get('scale') or ro(d, 'coords'), 2)
+        pick(lambda d: d['kw'].get('as_array') or d['kw'].get('scale') or ro(d, 'coords'), 1)
     seqs[0] = seqs[0] + themeblock
     run_sequences(ctx, seqs, threads)
     ctx.exhaustive = False
